@@ -98,8 +98,8 @@ _J_PATS = [
         r"\{Some\((\w+)\)=>\1,None=>&self\.buffer\[self\.start\.\.\],?\}\};"),
     (3, r"lettext=matchstd::str::from_utf8\(bytes\)\{Ok\(text\)=>text,Err\(_\w*\)=>\{?returnSome\(Err\(Error::from\("
         r"std::io::Error::new\(std::io::ErrorKind::InvalidData,\"[^\"]*\",?\),?\)\)\);?\}?,?\};"),
-    (4, r"ifn==0&&text\.trim\(\)\.is_empty\(\)\{returnNone;?\}"),
-    (5, r"let\(rest,record\)=matchself::parse::record(?:::<A>)?\(text\)\{" + _ERR + r",Ok\(\(rest,record\)\)=>\(rest,record\),?\};"),
+    (4, r"ifn==0&&text\.trim\(\)\.is_empty\(\)\{returnNone;?\};?"),
+    (5, r"let\(rest,record\)=matchself::parse::record(?:::<A>)?\(text\)\{" + _ERR + r",?Ok\(\(rest,record\)\)=>\(rest,record\),?\};"),
     (5, r"let\(rest,record\)=matchself::parse::record(?:::<A>)?\(text\)\{Ok\(\(rest,record\)\)=>\(rest,record\)," + _ERR + r",?\};"),
     (6, r"self\.start\+=bytes\.len\(\)-rest\.len\(\);"),
     (16, r"self\.start\+=n\+1-rest\.len\(\);"),
